@@ -27,6 +27,12 @@ def main():
         caught = prop in m2.get("caught_by", [])
         drift = any("MODEL-DRIFT" in l for l in m2["what_was_run"]["checks"].get(prop, {}).get("lines", []))
         expect_drift = meta.get("expected") == "drift"
+        if meta.get("expected") == "missed":
+            # a recorded limit of the checks (DESIGN 9.3): re-run for information, never counted as a regression
+            print("%-6s %-4s %s" % (d, prop, "known limit - " + ("now reported" if caught else "still missed")))
+            m2["expected"], m2["why_missed"] = "missed", meta.get("why_missed", "")
+            json.dump(m2, open(os.path.join(root, d, "meta.json"), "w"), indent=1)
+            continue
         ok = (drift and not caught) if expect_drift else caught
         print("%-6s %-4s %s" % (d, prop, "ok (%s)" % ("MODEL-DRIFT" if expect_drift else "VIOLATION") if ok else "MISSED"))
         if "caught_via" in meta:
